@@ -205,6 +205,10 @@ def gen_cases(tier):
         c = {"id": i + 1, "kind": kind}
         if kind == "construct":
             c["alts"] = alternatives(rng, vs, rng.randint(2, 3), mode)
+            if i % 12 == 0:
+                # three alternatives, only the first and the last overlap
+                w = rng.randint(1, 2)
+                c["alts"] = [box_alt(rng, vs, 0, 2 + w), box_alt(rng, vs, 10, 12), box_alt(rng, vs, 1 + w, 5 + w)]
         elif kind == "contains":
             c["alts"] = alternatives(rng, vs, rng.randint(1, 3), mode)
             behs = []
@@ -215,7 +219,12 @@ def gen_cases(tier):
             c["behs"] = behs
         elif kind == "le":
             c["L"] = alternatives(rng, vs, rng.randint(1, 3), mode)
-            if rng.random() < 0.5:
+            if rng.random() < 0.35:
+                # the right side covers the FIRST left alternative only
+                first = c["L"][0]
+                hi, lo = first[0][1], -first[1][1]
+                c["R"] = [box_alt(rng, vs[:1], lo - rng.randint(0, 2), hi + rng.randint(0, 1))]
+            elif rng.random() < 0.5:
                 # right side: one wide alternative covering some of the left alternatives
                 c["R"] = [box_alt(rng, vs, rng.randint(-8, -3), rng.randint(0, 4))]
             else:
